@@ -275,3 +275,150 @@ def wrap_mols(ctx, case=None):
 
 
 contract("C11", PXI, "wrap_mols", replay="image", covers=["returned"], max_paths=50)(wrap_mols)
+
+
+def image_frame(ctx, case):
+    """image_frame on one frame: three anchor molecules ({0,1}, {2}, {3}) and one other molecule ({4,5}); positions, the lower-triangular cell,
+    the anchor-anchor contact distances and the contact atom of the two-atom anchor are symbolic.  Callee contracts: make_whole, wrap_mols (proved
+    above) and anchor_dists / find_closest_contact (C; assumed: symmetric distance table; for molecules m1 > m2 the entry (m1, m2) and its mirror
+    hold (atom of m1, atom of m2)).
+       make_whole runs first iff a bond table is given; anchor 0 is not moved; every other anchor molecule is moved AS A WHOLE by one integer
+       combination of the cell vectors (witnesses: its three roundings), after which its contact pair with the anchor it was attached to lies in
+       the centred cell; wrap_mols receives the centroid of all anchor atoms (after those moves) and the untouched lists of the other
+       molecules; the cell is not modified."""
+    import numpy as np
+    from mdvc import npobj
+    from mdvc.core import rterm
+
+    with_bonds = case
+    mod, dropped = _load_pxi(ctx, ["image_frame"])
+    A = 6
+    X = [[ctx.real(f"x{a}_{k}") for k in range(3)] for a in range(A)]
+    B = [[ctx.real(f"b{r}{k}") for k in range(3)] for r in range(3)]
+    ctx.assume(B[0][1] == 0, B[0][2] == 0, B[1][2] == 0, B[0][0] > 0, B[1][1] > 0, B[2][2] > 0)
+    pos = npobj.oarr((A, 3), lambda a, k: X[a][k])
+    box = npobj.oarr((3, 3), lambda r, k: B[r][k])
+    mols = [[0, 1], [2], [3]]
+    a_idx, a_off = np.array([0, 1, 2, 3], dtype=np.int32), np.array([2, 3, 4], dtype=np.int32)
+    o_idx, o_off = np.array([4, 5], dtype=np.int32), np.array([2], dtype=np.int32)
+    bonds = np.array([[0, 1], [4, 5]], dtype=np.int32) if with_bonds else None
+    events = []
+    D = {(1, 0): ctx.real("D10"), (2, 0): ctx.real("D20"), (2, 1): ctx.real("D21")}
+    ctx.assume(*[v > 0 for v in D.values()])
+    contact0 = 0 if ctx.ex.branch(z3.Bool("contact-atom-of-anchor0-is-atom0")) else 1  # which atom of the two-atom anchor is the closest contact
+    near = {(1, 0): (2, contact0), (2, 0): (3, contact0), (2, 1): (3, 2)}
+
+    def anchor_dists(fp, cell, idx, off, dist, nearest, n):
+        events.append(("anchor_dists", fp is pos, cell is box, n))
+        for (m1, m2), v in D.items():
+            dist[m1, m2] = v
+            dist[m2, m1] = v
+            nearest[m1, m2, 0], nearest[m1, m2, 1] = near[(m1, m2)]
+            nearest[m2, m1, 0], nearest[m2, m1, 1] = near[(m1, m2)]
+    snap = {}
+
+    def wrap_mols(fp, cell, center, oi, oo):
+        events.append(("wrap_mols", fp is pos, cell is box, oi is o_idx, oo is o_off))
+        snap["pos"] = [[fp[a][k] for k in range(3)] for a in range(A)]
+        snap["center"] = [center[k] for k in range(3)]
+
+    def make_whole(fp, cell, sb):
+        events.append(("make_whole", fp is pos, cell is box, sb is bonds))
+    # the .pxi is textually included in _geometry.pyx, whose `import numpy as np` it relies on
+    mod.globals.update(anchor_dists=anchor_dists, wrap_mols=wrap_mols, make_whole=make_whole, np=ctx.interp.import_models["numpy"])
+    out = ctx.call(mod.globals["image_frame"], pos, box, a_idx, a_off, o_idx, o_off, bonds)
+    ctx.ensure("no-exception" + (f"({out.exc.inst!r})"[:160] if out.raised else ""), not out.raised)
+    if out.raised:
+        return
+    ctx.cover("returned")
+    kinds = [e[0] for e in events]
+    ctx.ensure("callees-in-order:" + ("make_whole," if with_bonds else "") + "anchor_dists,wrap_mols-each-once-on-this-frame's-positions-and-cell",
+               kinds == (["make_whole"] if with_bonds else []) + ["anchor_dists", "wrap_mols"] and all(all(e[1:3]) for e in events))
+    if "wrap_mols" not in kinds:
+        return
+    ctx.ensure("wrap_mols-gets-the-other-molecules'-lists-untouched", events[-1][3] and events[-1][4])
+    if with_bonds:
+        ctx.ensure("make_whole-gets-the-bond-table", events[0][3])
+    raw = ctx.ex.path.ghost.get("round_witness", [])
+    # per attached anchor three roundings are used (c, then b, then a); np.round of an expression that is rounded twice is one function value
+    ctx.ensure("three-roundings-per-attached-anchor", len(raw) == 3 * 2)
+    if len(raw) != 6:
+        return
+    V = [[rterm(B[r][k]) for k in range(3)] for r in range(3)]
+    half = z3.RealVal("1/2")
+    WBdiv = ctx.lemma("WBdiv:|n-t|<=1/2,t*B=r,B>0=>|r-n*B|<=B/2", 4, lambda n, t, Bv, r: z3.Implies(
+        z3.And(n - t <= half, t - n <= half, t * Bv == r, Bv > 0), z3.And(r - n * Bv <= Bv / 2, n * Bv - r <= Bv / 2)))
+    P = snap["pos"]
+    for a in mols[0]:
+        for k in range(3):
+            ctx.ensure(f"anchor0:atom{a}[{k}]-not-moved", rterm(P[a][k]) == rterm(X[a][k]))
+    # the order in which anchors 1 and 2 were attached is decided by the code (distances to anchor 0); each moved molecule is a single atom here
+    moved_by = {}
+    for m in (1, 2):
+        a = mols[m][0]
+        moved_by[m] = [rterm(X[a][k]) - rterm(P[a][k]) for k in range(3)]
+    first = 1 if ctx.ex.branch(core.term(D[(1, 0)]) <= core.term(D[(2, 0)])) else 2  # np.argmin over the distances to anchor 0: the first minimum
+    second = 3 - first
+    d_s0, d_sf = D[(second, 0)], D[(max(second, first), min(second, first))]
+    attach_to = {first: 0, second: 0 if ctx.ex.branch(core.term(d_s0) <= core.term(d_sf)) else first}  # np.argmin over [anchor 0, first attached]
+    for j, m in enumerate((first, second)):
+        n3, n2, n1 = (z3.ToReal(raw[3 * j + q][1]) for q in range(3))
+        t3, t2, t1 = (raw[3 * j + q][0] for q in range(3))
+        lat = [n3 * V[2][k] + n2 * V[1][k] + n1 * V[0][k] for k in range(3)]
+        for k in range(3):
+            ctx.ensure(f"attached-anchor#{j}:moved-by-one-integer-combination-of-the-cell-vectors[{k}]", moved_by[m][k] == lat[k])
+        u = attach_to[m]
+        pair = near[(max(m, u), min(m, u))]
+        a_next, a_used = (pair[0], pair[1]) if m > u else (pair[1], pair[0])
+        delta = [rterm(X[a_next][k]) - rterm(P[a_used][k]) for k in range(3)]
+        WBdiv(n3, t3, V[2][2], delta[2])
+        WBdiv(n2, t2, V[1][1], delta[1] - n3 * V[2][1])
+        WBdiv(n1, t1, V[0][0], delta[0] - n3 * V[2][0] - n2 * V[1][0])
+        after = [rterm(P[a_next][k]) - rterm(P[a_used][k]) for k in range(3)]
+        for k in (2, 1, 0):
+            ctx.ensure(f"attached-anchor#{j}:its-contact-pair-with-the-anchor-it-was-attached-to-lies-in-the-centred-cell[{k}]",
+                       z3.And(after[k] <= V[k][k] / 2, -after[k] <= V[k][k] / 2))
+    for k in range(3):
+        cen = sum(rterm(P[a][k]) for a in (0, 1, 2, 3)) / 4
+        ctx.ensure(f"wrap_mols-centre[{k}]=centroid-of-all-anchor-atoms-after-the-moves", rterm(snap["center"][k]) == cen)
+    for a in (4, 5):
+        for k in range(3):
+            ctx.ensure(f"other-molecule:atom{a}[{k}]-left-to-wrap_mols", rterm(P[a][k]) == rterm(X[a][k]))
+    ctx.ensure("cell-not-modified", all(box[r][k] is B[r][k] for r in range(3) for k in range(3)))
+
+
+contract("C11", PXI, "image_frame", cases=[True, False], replay="image", covers=["returned"], max_paths=200)(image_frame)
+
+
+def image_molecules_driver(ctx, case=None):
+    """image_molecules (the driver): the lists of molecules are packed into one index array and one array of end offsets such that molecule i is
+    indices[offsets[i-1]:offsets[i]], and image_frame is called once per frame with THAT frame's positions and cell (symbolic contents) and the
+    same packed lists and bond table"""
+    import numpy as np
+    from mdvc import npobj
+
+    mod, dropped = _load_pxi(ctx, ["image_molecules"])
+    mod.globals["np"] = np  # the packing works on concrete integer arrays
+    calls = []
+    mod.globals["image_frame"] = lambda *a: calls.append(a)
+    xyz = npobj.oarr((2, 6, 3), lambda f, a, k: ctx.real(f"x{f}_{a}_{k}"))
+    box = npobj.oarr((2, 3, 3), lambda f, r, k: ctx.real(f"b{f}_{r}{k}"))
+    anchors = [np.array([3, 4], dtype=np.int32), np.array([0], dtype=np.int32)]
+    others = [np.array([5], dtype=np.int32), np.array([1, 2], dtype=np.int32)]
+    bonds = np.array([[1, 2], [3, 4]], dtype=np.int32)
+    out = ctx.call(mod.globals["image_molecules"], xyz, box, anchors, others, bonds)
+    ctx.ensure("no-exception", not out.raised)
+    if out.raised:
+        return
+    ctx.cover("returned")
+    ctx.ensure("image_frame-called-once-per-frame", len(calls) == 2)
+    for f, c in enumerate(calls[:2]):
+        fp, cell, ai, ao, oi, oo, sb = c
+        ctx.ensure(f"frame{f}:that-frame's-positions-and-cell", np.shares_memory(fp, xyz[f]) and fp.shape == (6, 3) and all(cell[r][k] is box[f][r][k] for r in range(3) for k in range(3)))
+        unpack = lambda idx, off: [list(map(int, idx[(off[i - 1] if i else 0):off[i]])) for i in range(len(off))]
+        ctx.ensure(f"frame{f}:anchor-molecule-i=indices[offsets[i-1]:offsets[i]]", unpack(ai, ao) == [[3, 4], [0]])
+        ctx.ensure(f"frame{f}:other-molecule-i=indices[offsets[i-1]:offsets[i]]", unpack(oi, oo) == [[5], [1, 2]])
+        ctx.ensure(f"frame{f}:bond-table-passed-on", sb is bonds)
+
+
+contract("C11", PXI, "image_molecules", replay="image", covers=["returned"])(image_molecules_driver)
